@@ -1,6 +1,6 @@
 (* C16 - property-protocol settings: sent once, correctly encoded, read back equal. Statements only. *)
 From MS Require Import lib.Base gen.GenCmd gen.GenDev model.Command model.Response model.Device spec.RefProps
-  proofs.TotalProofs proofs.PropsProofs.
+  proofs.TotalProofs proofs.PropsProofs proofs.HistoryProofs extract.Run.
 Local Open Scope N_scope.
 
 (* every setter records exactly its id - the one the appliance advertised for the breeze modes - and records it once *)
@@ -93,6 +93,20 @@ Theorem C16_readback : forall d (s : store) ids, store_ok s -> (forall k0, looku
   /\ (forall x, pv_self_clean v = Some x -> d_self_clean d' = x).
 Proof. exact readback. Qed.
 Print Assumptions C16_readback.
+
+(* in EVERY state reachable from a fresh device by any history (any peer answering with byte strings) the change set has no
+   duplicates and only ids of the property map: so every write of C16_apply_sends carries each changed id exactly once *)
+Theorem C16_reachable_change_set : forall (P : Type) (peer : P -> bytes -> P * list bytes),
+  (forall p f, Forall wfb (snd (peer p f))) ->
+  forall ops (p0 : P) n, args_ok ops ->
+  let d := w_dev (fst (do_ops_gen peer (mkWorld dev_init p0 n []) ops)) in
+  NoDup (d_upd_props d) /\ incl (d_upd_props d) PROPERTY_MAP_keys /\ dev_wf d.
+Proof.
+  intros P peer Hb ops p0 n Ha d.
+  destruct (history_never_raises P peer Hb ops (mkWorld dev_init p0 n []) hinv_init Ha) as [_ H].
+  fold d in H. pose proof (hinv_dev_wf d H) as Hw. destruct H as (_ & _ & Hnd & Hincl & _). exact (conj Hnd (conj Hincl Hw)).
+Qed.
+Print Assumptions C16_reachable_change_set.
 
 (* non-vacuity: the F6 history on the reference appliance - legacy pair, breeze away written, then queried *)
 Example C16_nonvacuous :
